@@ -296,3 +296,124 @@ fn probe_inflate_concrete_sizes() {
 fn probe_inflate_concrete_sizes_path() {
     probe_inflate_concrete_sizes()
 }
+
+// ------------------------------------------------------------------------------------------
+// One-shot helpers over the contract stub (C01/C03/C05/C08).
+use miniz_oxide::inflate::{decompress_slice_iter_to_slice, decompress_to_vec_with_limit, decompress_to_vec_zlib_with_limit};
+
+/// Contract stub + D8: a fresh decoder offered no input at all can only report starvation.
+pub fn decompress_contract_fresh(
+    r: &mut DecompressorOxide,
+    in_buf: &[u8],
+    out: &mut [u8],
+    out_pos: usize,
+    flags: u32,
+) -> (TINFLStatus, usize, usize) {
+    let fresh = r.verif_state_id() == 0;
+    let res = decompress_contract(r, in_buf, out, out_pos, flags);
+    if fresh && in_buf.is_empty() {
+        kani::assume(res.0 == TINFLStatus::FailedCannotMakeProgress || res.0 == TINFLStatus::NeedsMoreInput);
+    }
+    res
+}
+
+/// C08/C01/C03/C05: decompress_to_vec*_with_limit delivers exactly what the core produced, never more
+/// than the limit, fails with HasMoreOutput only when the limit is reached, and terminates.
+#[kani::proof]
+#[kani::unwind(10)]
+#[kani::stub(mzcore::decompress, decompress_contract_fresh)]
+fn w_vec_limit() {
+    reset_ghost();
+    unsafe { MAX_WRITE = 8 };
+    let input: [u8; 2] = kani::any();
+    let n: usize = kani::any();
+    kani::assume(n <= 2);
+    let limit: usize = kani::any();
+    kani::assume(limit <= 8);
+    let zlib: bool = kani::any();
+    let res = if zlib {
+        decompress_to_vec_zlib_with_limit(&input[..n], limit)
+    } else {
+        decompress_to_vec_with_limit(&input[..n], limit)
+    };
+    let f = unsafe { LAST_FLAGS };
+    assert!(f & TINFL_FLAG_USING_NON_WRAPPING_OUTPUT_BUF != 0);
+    assert!((f & TINFL_FLAG_PARSE_ZLIB_HEADER != 0) == zlib);
+    assert!(f & TINFL_FLAG_HAS_MORE_INPUT == 0);
+    let produced = unsafe { G_N };
+    match res {
+        Ok(v) => {
+            assert!(unsafe { CORE_DONE });
+            assert!(v.len() == produced && v.len() <= limit);
+            let mut i = 0;
+            while i < v.len() {
+                assert!(v[i] == unsafe { G[i] });
+                i += 1;
+            }
+            core::mem::forget(v);
+        }
+        Err(e) => {
+            assert!(!unsafe { CORE_DONE } || e.status == TINFLStatus::Adler32Mismatch);
+            assert!(e.output.len() <= limit);
+            assert!(produced <= e.output.len());
+            // the decoded prefix is handed back
+            let mut i = 0;
+            while i < produced {
+                assert!(e.output[i] == unsafe { G[i] });
+                i += 1;
+            }
+            if e.status == TINFLStatus::HasMoreOutput {
+                // only because the limit is exhausted
+                assert!(produced == limit);
+            }
+            kani::cover!(e.status == TINFLStatus::HasMoreOutput && limit > 0);
+            core::mem::forget(e);
+        }
+    }
+    kani::cover!(produced == limit && limit > 2);
+}
+
+/// C03/C05: decompress_slice_iter_to_slice over two slices.
+#[kani::proof]
+#[kani::unwind(6)]
+#[kani::stub(mzcore::decompress, decompress_contract)]
+fn w_slice_iter() {
+    reset_ghost();
+    let a: [u8; 2] = kani::any();
+    let b: [u8; 2] = kani::any();
+    let na: usize = kani::any();
+    let nb: usize = kani::any();
+    kani::assume(na <= 2 && nb <= 2);
+    let mut out = [0u8; 4];
+    let n_out: usize = kani::any();
+    kani::assume(n_out <= 4);
+    let zlib: bool = kani::any();
+    let ignore: bool = kani::any();
+    let slices = [&a[..na], &b[..nb]];
+    let res = decompress_slice_iter_to_slice(&mut out[..n_out], slices.iter().copied(), zlib, ignore);
+    let f = unsafe { LAST_FLAGS };
+    assert!((f & TINFL_FLAG_PARSE_ZLIB_HEADER != 0) == zlib);
+    assert!((f & TINFL_FLAG_IGNORE_ADLER32 != 0) == ignore);
+    let produced = unsafe { G_N };
+    match res {
+        Ok(n) => {
+            assert!(unsafe { CORE_DONE });
+            assert!(n == produced && n <= n_out);
+        }
+        Err(st) => {
+            assert!(st != TINFLStatus::Done && st != TINFLStatus::NeedsMoreInput);
+        }
+    }
+    // whatever happened, the output holds the produced plaintext prefix
+    let mut i = 0;
+    while i < produced {
+        assert!(out[i] == unsafe { G[i] });
+        i += 1;
+    }
+    // more input is announced exactly for the non-last slice
+    if unsafe { CORE_CALLS } == 2 {
+        assert!(f & TINFL_FLAG_HAS_MORE_INPUT == 0);
+    }
+    kani::cover!(unsafe { CORE_CALLS } == 2 && res.is_ok());
+    kani::cover!(res == Err(TINFLStatus::FailedCannotMakeProgress));
+}
